@@ -225,6 +225,17 @@ PLANS["C25"] = {
                     "the feature-guarded hook calls the same constructors and accessors as salsa's own code paths"],
     "extra_coverage": {"exhaustive": True},
 }
+PLANS["C26"] = {
+    "rule": ("case = seeded (program over persistable inputs, an interned type with revisions=2, tracked structs, persisted functions and "
+             "non-persisted intermediate functions; history); the history runs up to a random cut, the database is serialized with serde_json "
+             "and restored into a fresh database of the same type; checked: no panic in serialize/deserialize, every result right after the "
+             "restore equals the reference, persisted memos that were verified in the revision of serialization are served without running "
+             "their bodies, the rest of the history and a final sweep after a new revision equal the reference; non-trivial iff >=1 restored "
+             "memo was served without execution and >=1 write followed the restore" + DIST),
+    "runs": [{"sub": "persist", "cfg": "persist", "quick": {"cases": 60000, "secs": 150}, "thorough": {"cases": 3000000, "secs": 900}}],
+    "min_counts": {"quick": {"round_trips": 20000, "restored_memos_served_without_execution": 20000, "writes_after_restore": 20000}},
+    "assumptions": ASSUME_SINGLE + ["the persistence twin of the harness world uses a restricted expression subset (no specify, no accumulators, no cycles)"],
+}
 PLANS["C14"]["runs"].append(osrun(480, 12000))
 PLANS["C14"]["min_counts"]["quick"]["propagated_cycle_panics"] = 5
 PLANS["C14"]["rule"] += ("; second run: the same cyclic programs entered from 2-3 OS threads with failpoint delays (cycle panic on the "
